@@ -93,7 +93,8 @@ theorem importFreshCache_refuted :
 /-- `_partial` for `importFreshCache`: a statement that is not an `@import` behaves the same with
 and without the deviation -/
 theorem importFreshCache_partial (q : LoadQuirks) (F : Finder) (enter : Str → St → Res) (self : Str)
-    (j : Nat) (b : Binds) (s : St) (it : Item) (h : ∀ url uq, it ≠ .load .import url uq) :
+    (j : Nat) (b : Binds) (s : St) (it : Item) (h : ∀ url uq, it ≠ .load .import url uq)
+    (h2 : ∀ url, it ≠ .loadWith .import url) :
     execItem { q with importFreshCache := true } F enter self j b s it
       = execItem { q with importFreshCache := false } F enter self j b s it := by
   cases it with
@@ -105,8 +106,16 @@ theorem importFreshCache_partial (q : LoadQuirks) (F : Finder) (enter : Str → 
     | use => rfl
     | forward => rfl
     | loadCss => rfl
+  | loadWith k url =>
+    cases k with
+    | «import» => exact absurd rfl (h2 url)
+    | use => rfl
+    | forward => rfl
+    | loadCss => rfl
 
-example : ∀ url uq, Item.load .use [97] false ≠ .load .import url uq := by intro _ _ h; cases h
+example : (∀ url uq, Item.load .use [97] false ≠ .load .import url uq) ∧
+    (∀ url, Item.load .use [97] false ≠ .loadWith .import url) :=
+  ⟨(by intro _ _ h; cases h), (by intro _ h; cases h)⟩
 
 /-- `in.scss`: `@use "a" as m1; read+bump; @use "a" as m3; read+bump`; `a.scss`: `@forward "b"` -/
 def wFwd : World :=
@@ -152,5 +161,53 @@ theorem loadKeyTextual_refuted :
     (run LoadQuirks.now wDot wDot.fuel root).markers = [.file 0, .file 1] ∧
     (run LoadQuirks.asis wDot wDot.fuel root).markers = [.file 0, .file 1, .file 1] := by
   decide +kernel
+
+/-- `in.scss`: `@use "sub"; @use "sub/a"`; `sub/_index.scss`: marker; `sub/a.scss`: `@use "."` -/
+def wDir : World :=
+  ⟨[(root, ⟨0, [.mark, .load .use [115, 117, 98] false, .load .use [115, 117, 98, 47, 97] false]⟩),
+    ([115, 117, 98, 47, 95, 105, 110, 100, 101, 120, 46, 115, 99, 115, 115], ⟨1, [.mark]⟩),
+    ([115, 117, 98, 47, 97, 46, 115, 99, 115, 115], ⟨2, [.mark, .load .use [46] false]⟩)], [[]], fun _ => none⟩
+
+/-- refutation (`dirUrlKeepsSlash`, open): the index module of a directory reached as `sub` and,
+from a file inside it, as `.`: once in the specification; the code names the second one
+`sub//_index.scss` and runs it again -/
+theorem dirUrlKeepsSlash_refuted :
+    (run LoadQuirks.spec wDir wDir.fuel root).markers = [.file 0, .file 1, .file 2] ∧
+    (run LoadQuirks.now wDir wDir.fuel root).markers = [.file 0, .file 1, .file 2, .file 1] := by
+  decide +kernel
+
+/-- `_partial` for `dirUrlKeepsSlash`: a joined url that does not end in `/` is left alone -/
+theorem dirUrlKeepsSlash_partial (q : LoadQuirks) (self url : Str)
+    (h : (normalize (!q.normalizeKeepsEmpty) (dirOf self ++ url)).getLast? ≠ some slash) :
+    relUrl { q with dirUrlKeepsSlash := true } self url = relUrl { q with dirUrlKeepsSlash := false } self url := by
+  unfold relUrl
+  split
+  · rfl
+  · split
+    · rfl
+    · simp only [Bool.not_true, Bool.false_and, Bool.false_eq_true, if_false, Bool.not_false, Bool.true_and]
+      split
+      · next hc => simp only [Bool.and_eq_true, beq_iff_eq] at hc; exact absurd hc.1.2 h
+      · rfl
+
+example : (normalize true (dirOf [115, 117, 98, 47, 97, 46, 115, 99, 115, 115] ++ [46, 46, 47, 109])).getLast?
+    ≠ some slash := by decide
+
+/-- configured loads (commit 23c2f01): `@use … with (…)` of a module that is already cached is an
+error — never a second execution — and of a module that is not cached runs it once like a plain
+`@use` -/
+theorem configured_use_of_loaded_is_error (q : LoadQuirks) (hq : q.reconfigureIgnored = false) (F : Finder)
+    (enter : Str → St → Res) (self : Str) (j : Nat) (b : Binds) (s s1 : St) (url name : Str)
+    (calls : List Call) (id : Nat) (hf : F.find self .use url s.calls = .found name calls)
+    (hl : lock name { s with calls := calls } = some s1) (hc : s1.modules.lookup name = some id) :
+    (execItem q F enter self j b s (.loadWith .use url)).1 = .err .config s1 := by
+  simp [execItem, hf, hl, hq, hc]
+
+theorem configured_use_of_new_is_plain_use (q : LoadQuirks) (F : Finder)
+    (enter : Str → St → Res) (self : Str) (j : Nat) (b : Binds) (s s1 : St) (url name : Str)
+    (calls : List Call) (hf : F.find self .use url s.calls = .found name calls)
+    (hl : lock name { s with calls := calls } = some s1) (hc : s1.modules.lookup name = none) :
+    execItem q F enter self j b s (.loadWith .use url) = execItem q F enter self j b s (.load .use url false) := by
+  simp [execItem, hf, hl, hc]
 
 end C03
